@@ -104,21 +104,29 @@ func parseListMap(p *parser, bp oper.BP, t *token.Token) ast.Expr {
 		rg := pos.Range(t, rb)
 		return ast.Map([]ast.Pair{}, rg)
 	}
-	return p.any("list or map", parseList(t), parseMap(t))
+	// 第一个元素只解析一次, 再根据其后是否为 : 决定按 list 还是 map 继续;
+	// 之前 list 失败后整体回溯按 map 重新解析, 嵌套 n 层的代价是 2^n (e.g. 22 个 [ 需要数秒)
+	return p.any("list or map", func(p *parser) ast.Expr {
+		if rb := p.tryEat(token.RIGHT_BRACKET); rb != nil {
+			return ast.List([]ast.Expr{}, pos.Range(t, rb))
+		}
+		fst := p.expr(0)
+		if p.peek().Kind == token.COLON {
+			return parseMap(t, fst)(p)
+		}
+		return parseList(t, fst)(p)
+	})
 }
 
-func parseList(t *token.Token) func(p *parser) ast.Expr {
+// parseList fst 是已经解析的第一个元素
+func parseList(t *token.Token, fst ast.Expr) func(p *parser) ast.Expr {
 	return func(p *parser) ast.Expr {
-		elems := make([]ast.Expr, 0)
-		for {
+		elems := []ast.Expr{fst}
+		for p.tryEat(token.COMMA) != nil {
 			if p.peek().Kind == token.RIGHT_BRACKET {
 				break
 			}
-			el := p.expr(0)
-			elems = append(elems, el)
-			if p.tryEat(token.COMMA) == nil {
-				break
-			}
+			elems = append(elems, p.expr(0))
 		}
 		rb := p.mustEat(token.RIGHT_BRACKET)
 		rg := pos.Range(t, rb)
@@ -126,20 +134,22 @@ func parseList(t *token.Token) func(p *parser) ast.Expr {
 	}
 }
 
-func parseMap(t *token.Token) func(p *parser) ast.Expr {
+// parseMap fst 是已经解析的第一个 key
+func parseMap(t *token.Token, fst ast.Expr) func(p *parser) ast.Expr {
 	return func(p *parser) ast.Expr {
 		pairs := make([]ast.Pair, 0)
+		k := fst
 		for {
-			if p.peek().Kind == token.RIGHT_BRACKET {
-				break
-			}
-			k := p.expr(0)
 			p.mustEat(token.COLON)
 			v := p.expr(0)
 			pairs = append(pairs, ast.Pair{Key: k, Val: v})
 			if p.tryEat(token.COMMA) == nil {
 				break
 			}
+			if p.peek().Kind == token.RIGHT_BRACKET {
+				break
+			}
+			k = p.expr(0)
 		}
 		rb := p.mustEat(token.RIGHT_BRACKET)
 		rg := pos.Range(t, rb)
